@@ -17,15 +17,24 @@
                                      negative entry (hypothesis distances_nonneg)
      est_max_wait_stop               SOUND (the early break is harmless: equal
                                      arrival => equal start/end downstream)
-     est_max_wait_vehicle            NOT SOUND: the early break forgets that the
-                                     accumulated wait downstream includes the
-                                     waits of the inserted stops
-                                     (C09_max_wait_vehicle_refuted).  Sound when
-                                     travel durations satisfy the triangle
-                                     inequality and stop durations are >= 0.
+     est_max_wait_vehicle            SOUND as the code is now: the early break
+                                     is guarded by "the wait accumulated in
+                                     front of the stop is not larger than the
+                                     cached one", so downstream accumulated
+                                     waits can only shrink.
+     est_max_wait_vehicle_prefix     (the estimate BEFORE the fix, no guard,
+                                     defined here) NOT SOUND: the break forgot
+                                     that the accumulated wait downstream
+                                     includes the waits of the inserted stops
+                                     (C09_max_wait_vehicle_refuted_proof; the
+                                     witness replayed on the real code and led
+                                     to the fix).  It was sound only for metric
+                                     travel durations and stop durations >= 0.
 
-   Main results: C09_executable_executes_partial, C09_executable_executes_refuted,
-   C09_max_wait_vehicle_refuted. *)
+   Main results: C09_executable_executes_proof (full strength, current code),
+   C09_prefix_executable_executes_partial_proof / _refuted_proof and
+   C09_max_wait_vehicle_refuted_proof (code before the fix),
+   C09_fixed_estimate_rejects_witness_proof, C09_fix_only_stricter_proof. *)
 
 From Coq Require Import List ZArith Bool Arith Lia Permutation Sorted.
 From NR Require Import Model.Engine Model.Estimates
@@ -521,12 +530,42 @@ Proof.
     constructor; [rewrite E; exact Hc|]. exact (IH _ _ Hz' E Hc Hl).
 Qed.
 
+(* the accumulated wait cached in front of a stop of a duplicate-free route *)
+Lemma prev_acc_aux_unique (l2 : list cell) (p c : cell) :
+  forall (l1 : list cell) (a : cell),
+    ~ In (c_stop c) (map c_stop l1) -> c_stop p <> c_stop c ->
+    prev_acc_aux a (l1 ++ p :: c :: l2) (c_stop c) = c_wait_acc p.
+Proof.
+  induction l1 as [|b l1 IH]; intros a Hn Hp; cbn [app prev_acc_aux].
+  - rewrite (proj2 (Nat.eqb_neq _ _) Hp), Nat.eqb_refl. reflexivity.
+  - cbn [map] in Hn. destruct (Nat.eqb (c_stop b) (c_stop c)) eqn:E.
+    + apply Nat.eqb_eq in E. exfalso. apply Hn. left. exact E.
+    + apply IH; [|exact Hp]. intros H. apply Hn. right. exact H.
+Qed.
+
+Lemma prev_acc_unique (l1 l2 : list cell) (p c : cell) :
+  NoDup (map c_stop (l1 ++ p :: c :: l2)) ->
+  prev_acc (l1 ++ p :: c :: l2) (c_stop c) = c_wait_acc p.
+Proof.
+  intros Hnd.
+  assert (Hp : c_stop p <> c_stop c).
+  { rewrite map_app in Hnd. apply NoDup_app_iff in Hnd. destruct Hnd as (_ & Hnd & _).
+    cbn [map] in Hnd. inversion Hnd as [|? ? Hnot _]; subst. intros E. apply Hnot. left. symmetry. exact E. }
+  destruct l1 as [|a l1]; cbn [app prev_acc].
+  - cbn [prev_acc_aux]. rewrite Nat.eqb_refl. reflexivity.
+  - apply prev_acc_aux_unique; [|exact Hp].
+    cbn [app map] in Hnd. inversion Hnd as [|? ? _ Hnd']; subst.
+    rewrite map_app in Hnd'. apply NoDup_app_iff in Hnd'. destruct Hnd' as (_ & _ & Hd).
+    intros H. apply (Hd _ H). cbn [map]. right. left. reflexivity.
+Qed.
+
 (* The max-wait simulation with its early break.  [J pc po] is whatever the
    caller wants to know about the pair (new cell, old cell) reached so far;
    [Hbreak] is what must hold when the simulation stops early. *)
 Section SimWait.
   Variables (inp : input) (v : nat) (us : list nat) (old : list cell).
   Variable violated : Z -> Z -> nat -> bool.
+  Variable guard : Z -> nat -> bool.
   Variable K : Z.
   Variable Q : cell -> Prop.
   Variable J : cell -> cell -> Prop.
@@ -540,17 +579,18 @@ Section SimWait.
     J (next_cell inp v pc x) (next_cell inp v po x).
   Hypothesis Hbreak : forall pc po x rest, J pc po -> dom x -> Forall dom rest ->
     c_arrival (next_cell inp v pc x) = c_arrival (next_cell inp v po x) ->
+    guard (c_wait_acc pc + K) x = true -> prev_acc old x = c_wait_acc po ->
     Forall (cell_passes inp v) (next_cell inp v po x :: cells_from inp v (next_cell inp v po x) rest) ->
     Forall Q (next_cell inp v pc x :: cells_from inp v (next_cell inp v pc x) rest).
 
   Lemma sim_wait_sound :
     forall (stops : list nat) (pc po : cell) (pre : list cell) (to_place : nat) (acc endv : Z) (prev : nat),
       Forall dom stops ->
-      old = pre ++ cells_from inp v po (filter (not_in us) stops) ->
+      old = (pre ++ [po]) ++ cells_from inp v po (filter (not_in us) stops) ->
       Forall (cell_passes inp v) (cells_from inp v po (filter (not_in us) stops)) ->
       to_place = length (filter (fun x => mem_nat x us) stops) ->
       acc = c_wait_acc pc + K -> endv = c_end pc -> prev = c_stop pc -> J pc po ->
-      sim_wait inp us old endv prev stops to_place acc violated = false ->
+      sim_wait inp us old endv prev stops to_place acc violated guard = false ->
       Forall Q (cells_from inp v pc stops).
   Proof.
     induction stops as [|x rest IH]; intros pc po pre to_place acc endv prev Hdom Hold Hok -> -> -> -> HJ H;
@@ -572,8 +612,9 @@ Section SimWait.
     - (* a planned stop *)
       cbn [cells_from] in Hold, Hok. set (co := next_cell inp v po x) in *.
       destruct ((Nat.eqb (length (filter (fun x0 => mem_nat x0 us) rest)) 0 && true &&
-                 (c_arrival c =? c_arrival (cell_of_stop old x)))%bool) eqn:Eb.
+                 (c_arrival c =? c_arrival (cell_of_stop old x)) && guard (c_wait_acc pc + K) x)%bool) eqn:Eb.
       + (* the early break *)
+        apply andb_true_iff in Eb. destruct Eb as (Eb & Eg).
         apply andb_true_iff in Eb. destruct Eb as (Eb & Ea). apply andb_true_iff in Eb.
         destruct Eb as (Eb & _). apply Nat.eqb_eq in Eb. apply Z.eqb_eq in Ea.
         apply length_zero_iff_nil in Eb.
@@ -584,14 +625,19 @@ Section SimWait.
         { unfold cell_of_stop. rewrite <- (nc_stop inp v po x). fold co. rewrite Hold at 1.
           rewrite find_stop_unique; [reflexivity|]. rewrite <- Hold. exact Hnd. }
         rewrite Hco in Ea.
-        exact (Hbreak pc po x rest HJ Hdx Hdr Ea Hok).
+        assert (Hpa : prev_acc old x = c_wait_acc po).
+        { assert (Hold2 : old = pre ++ po :: co :: cells_from inp v co rest)
+            by (rewrite Hold, <- app_assoc; reflexivity).
+          rewrite <- (nc_stop inp v po x). fold co. rewrite Hold2 at 1.
+          apply prev_acc_unique. rewrite <- Hold2. exact Hnd. }
+        exact (Hbreak pc po x rest HJ Hdx Hdr Ea Eg Hpa Hok).
       + rewrite Hacc in H.
         destruct (violated (c_wait_acc c + K) (c_start c - c_arrival c) x) eqn:Ev; [discriminate|].
         constructor; [apply Hviol; rewrite Hx; exact Ev|].
         inversion Hok as [|c0 l0 Hc0 Hl0]; subst c0 l0.
-        assert (Hold' : old = (pre ++ [co]) ++ cells_from inp v co (filter (not_in us) rest))
-          by (rewrite <- app_assoc; exact Hold).
-        apply (IH c co (pre ++ [co]) _ _ _ _ Hdr Hold' Hl0 eq_refl eq_refl eq_refl (eq_sym Hx)); [|exact H].
+        assert (Hold' : old = ((pre ++ [po]) ++ [co]) ++ cells_from inp v co (filter (not_in us) rest))
+          by (rewrite <- (app_assoc (pre ++ [po])); exact Hold).
+        apply (IH c co (pre ++ [po]) _ _ _ _ Hdr Hold' Hl0 eq_refl eq_refl eq_refl (eq_sym Hx)); [|exact H].
         apply Jboth; assumption.
   Qed.
 End SimWait.
@@ -689,6 +735,46 @@ Lemma busy_step (inp : input) (v : nat) (p : cell) (x : nat) :
 Proof.
   unfold busy. rewrite nc_end, nc_wait_eq, nc_arrival, nc_travel. lia.
 Qed.
+
+Lemma firstn_S_nth {A} (l : list A) (k : nat) (d : A) :
+  (k < length l)%nat -> firstn (S k) l = firstn k l ++ [nth k l d].
+Proof.
+  revert k. induction l as [|a l IH]; intros k Hk; [cbn in Hk; lia|].
+  destruct k as [|k]; [reflexivity|]. cbn [length] in Hk.
+  change (firstn (S (S k)) (a :: l)) with (a :: firstn (S k) l).
+  rewrite (IH k) by lia. reflexivity.
+Qed.
+
+(* ------------------------------------------------------------------ *)
+(* The vehicle max-wait estimate BEFORE the fix (the early break had no  *)
+(* guard on the accumulated wait): kept to document the defect          *)
+(* ------------------------------------------------------------------ *)
+
+Definition est_max_wait_vehicle_prefix (inp : input) (s : state) (mv : move) : bool :=
+  let h := hypo_of inp s mv in
+  let us := unit_stops inp (mv_unit mv) in
+  match iv_max_wait (get_vehicle inp (mv_vehicle mv)) with
+  | None => false
+  | Some w =>
+      sim_wait inp us (h_old h) (c_end (h_prev h)) (c_stop (h_prev h)) (h_suffix h) (length us)
+               (c_wait_acc (h_prev h)) (fun acc _ _ => w <? acc) (fun _ _ => true)
+  end.
+
+Definition estimate_violated_prefix (inp : input) (s : state) (mv : move) : bool :=
+  (has_attributes inp && est_attributes inp s mv) ||
+  (has_capacity inp && existsb (est_capacity inp s mv) (seqn (in_nres inp))) ||
+  (has_distance_limit inp && est_distance inp s mv) ||
+  (has_latest_end inp && est_latest_end inp s mv) ||
+  (has_latest_start inp && est_latest_start inp s mv) ||
+  (has_max_stops inp && est_max_stops inp s mv) ||
+  (has_max_wait_stop inp && est_max_wait_stop inp s mv) ||
+  (has_max_wait_vehicle inp && est_max_wait_vehicle_prefix inp s mv).
+
+Definition move_executable_prefix (inp : input) (s : state) (mv : move) : bool :=
+  negb (unit_planned inp s (mv_unit mv)) && negb (estimate_violated_prefix inp s mv).
+
+Definition exec_checked_prefix (inp : input) (s : state) (mv : move) : state * result :=
+  if move_executable_prefix inp s mv then exec_move inp s mv else (s, NotExecutable).
 
 (* ================================================================== *)
 (* 3. The context of a well-formed move on a state with the invariant  *)
@@ -972,20 +1058,43 @@ Section Ctx.
   Lemma ctx_old_nodup : NoDup (map c_stop OLD).
   Proof. exact ctx_nodup. Qed.
 
+  (* the common set-up of the three max-wait simulations *)
+  Lemma ctx_sim_wait (violated : Z -> Z -> nat -> bool) (guard : Z -> nat -> bool) (K : Z)
+        (Q : cell -> Prop) (J : cell -> cell -> Prop) (dom : nat -> Prop) (acc0 : Z) :
+    (forall c, violated (c_wait_acc c + K) (c_start c - c_arrival c) (c_stop c) = false -> Q c) ->
+    (forall pc po x, dom x -> mem_nat x US = true -> J pc po -> J (next_cell inp vv pc x) po) ->
+    (forall pc po x, dom x -> J pc po -> J (next_cell inp vv pc x) (next_cell inp vv po x)) ->
+    (forall pc po x rest, J pc po -> dom x -> Forall dom rest ->
+       c_arrival (next_cell inp vv pc x) = c_arrival (next_cell inp vv po x) ->
+       guard (c_wait_acc pc + K) x = true -> prev_acc OLD x = c_wait_acc po ->
+       Forall (cell_passes inp vv)
+              (next_cell inp vv po x :: cells_from inp vv (next_cell inp vv po x) rest) ->
+       Forall Q (next_cell inp vv pc x :: cells_from inp vv (next_cell inp vv pc x) rest)) ->
+    Forall dom NSUF -> J PC PC -> acc0 = c_wait_acc PC + K ->
+    sim_wait inp US OLD (c_end PC) (c_stop PC) NSUF (length US) acc0 violated guard = false ->
+    Forall Q (cells_from inp vv PC NSUF).
+  Proof.
+    intros Hviol Jins Jboth Hbreak Hdom HJ Hacc H.
+    destruct ctx_idx as (_ & HIL & HLL).
+    assert (HIDX : (IDX < length OLD)%nat) by lia.
+    refine (sim_wait_sound inp vv US OLD violated guard K Q J dom ctx_old_nodup Hviol Jins Jboth Hbreak
+              NSUF PC PC (firstn IDX OLD) _ _ _ _ Hdom _ _ _ Hacc eq_refl eq_refl HJ H).
+    - rewrite ctx_filter, <- (firstn_S_nth OLD IDX dummy_cell HIDX). exact (ctx_old_split IDX HIDX).
+    - rewrite ctx_filter. exact (ctx_old_ok IDX HIDX).
+    - symmetry. exact ctx_cnt.
+  Qed.
+
   Lemma est_max_wait_stop_sound :
     est_max_wait_stop inp s mv = false ->
     Forall (cl_max_wait_stop inp vv) (cells_from inp vv PC NSUF).
   Proof.
     intros H. cbv beta zeta iota delta [est_max_wait_stop hypo_of h_prev h_suffix h_old] in H.
-    destruct ctx_idx as (_ & HIL & HLL).
-    assert (HIDX : (IDX < length OLD)%nat) by lia.
-    refine (sim_wait_sound inp vv US OLD _ (- c_wait_acc PC) (cl_max_wait_stop inp vv)
-              (fun _ _ => True) (fun _ => True) ctx_old_nodup _ _ _ _
-              NSUF PC PC (firstn (S IDX) OLD) _ _ _ _ _ _ _ _ _ _ _ I H).
+    refine (ctx_sim_wait _ _ (- c_wait_acc PC) (cl_max_wait_stop inp vv)
+              (fun _ _ => True) (fun _ => True) 0 _ _ _ _ _ I _ H).
     - intros c Hc _ Hi w Ew. cbv beta in Hc. rewrite Hi, Ew in Hc. apply Z.ltb_ge in Hc. exact Hc.
     - auto.
     - auto.
-    - intros pc po x rest _ _ _ Ea Hok.
+    - intros pc po x rest _ _ _ Ea _ _ Hok.
       destruct (nc_start_of_arrival inp vv pc po x Ea) as (Es & Ee).
       assert (Ht : teq (next_cell inp vv pc x) (next_cell inp vv po x)).
       { unfold teq. rewrite !nc_stop. auto. }
@@ -996,25 +1105,71 @@ Section Ctx.
       destruct (passes_clauses inp vv b Hb) as (_ & _ & _ & _ & H5 & _).
       unfold cl_max_wait_stop in *. rewrite E1, E2, E3. exact H5.
     - apply Forall_forall. auto.
-    - rewrite ctx_filter. exact (ctx_old_split IDX HIDX).
-    - rewrite ctx_filter. exact (ctx_old_ok IDX HIDX).
-    - symmetry. exact ctx_cnt.
     - lia.
-    - reflexivity.
-    - reflexivity.
   Qed.
 
   (* ---------------------------------------------------------------- *)
-  (* max wait per vehicle: sound for metric durations                 *)
+  (* max wait per vehicle                                             *)
   (* ---------------------------------------------------------------- *)
 
+  (* at a break point: equal arrival and no more wait accumulated in front of
+     the stop than on the old route => no more accumulated wait anywhere
+     downstream, and the old cells passed *)
+  Lemma wait_vehicle_break (pc po : cell) (x : nat) (rest : list nat) :
+    c_arrival (next_cell inp vv pc x) = c_arrival (next_cell inp vv po x) ->
+    c_wait_acc pc <= c_wait_acc po ->
+    Forall (cell_passes inp vv)
+           (next_cell inp vv po x :: cells_from inp vv (next_cell inp vv po x) rest) ->
+    Forall (cl_max_wait_vehicle inp vv)
+           (next_cell inp vv pc x :: cells_from inp vv (next_cell inp vv pc x) rest).
+  Proof.
+    intros Ea Hacc Hok.
+    destruct (nc_start_of_arrival inp vv pc po x Ea) as (Es & Ee).
+    assert (Ht : teq (next_cell inp vv pc x) (next_cell inp vv po x)).
+    { unfold teq. rewrite !nc_stop. auto. }
+    set (d := c_wait_acc (next_cell inp vv pc x) - c_wait_acc (next_cell inp vv po x)).
+    assert (Hd : d <= 0).
+    { unfold d. rewrite !nc_wait_eq, Ea, Es. lia. }
+    assert (Hw : weq d (next_cell inp vv pc x) (next_cell inp vv po x)).
+    { split; [exact Ht|]. unfold d. lia. }
+    pose proof (cells_from_rel inp vv (weq d) (weq_step inp vv d) rest _ _ Hw) as HF2.
+    apply (Forall2_transfer (weq d) (cell_passes inp vv) (cl_max_wait_vehicle inp vv) _ _
+             (Forall2_cons _ _ Hw HF2)); [|exact Hok].
+    intros a b (_ & Eab) Hb.
+    destruct (passes_clauses inp vv b Hb) as (_ & _ & _ & _ & _ & H6).
+    intros Hh w' Ew'. specialize (H6 Hh w' Ew'). lia.
+  Qed.
+
+  (* the estimate of the code as it is now (the break is guarded by "the wait
+     accumulated so far is not larger than the cached one"): sound, no side condition *)
   Lemma est_max_wait_vehicle_sound :
-    durations_metric inp -> stop_durations_nonneg inp ->
     est_max_wait_vehicle inp s mv = false ->
     Forall (cl_max_wait_vehicle inp vv) (cells_from inp vv PC NSUF).
   Proof.
-    intros Hmet Hdur H.
+    intros H.
     cbv beta zeta iota delta [est_max_wait_vehicle hypo_of h_prev h_suffix h_old] in H.
+    destruct (iv_max_wait (get_vehicle inp vv)) as [w|] eqn:Ew.
+    2:{ apply Forall_forall. intros c _ _ w' E. congruence. }
+    refine (ctx_sim_wait _ _ 0 (cl_max_wait_vehicle inp vv)
+              (fun _ _ => True) (fun _ => True) _ _ _ _ _ _ I _ H).
+    - intros c Hc _ w' Ew'. cbv beta in Hc. rewrite Ew in Ew'. injection Ew' as <-.
+      apply Z.ltb_ge in Hc. lia.
+    - auto.
+    - auto.
+    - intros pc po x rest _ _ _ Ea Hg Hpa Hok. cbv beta in Hg. apply Z.leb_le in Hg.
+      apply (wait_vehicle_break pc po x rest Ea); [lia|exact Hok].
+    - apply Forall_forall. auto.
+    - lia.
+  Qed.
+
+  (* the estimate before the fix: sound only for metric durations *)
+  Lemma est_max_wait_vehicle_prefix_sound :
+    durations_metric inp -> stop_durations_nonneg inp ->
+    est_max_wait_vehicle_prefix inp s mv = false ->
+    Forall (cl_max_wait_vehicle inp vv) (cells_from inp vv PC NSUF).
+  Proof.
+    intros Hmet Hdur H.
+    cbv beta zeta iota delta [est_max_wait_vehicle_prefix hypo_of h_prev h_suffix h_old] in H.
     destruct (iv_max_wait (get_vehicle inp vv)) as [w|] eqn:Ew.
     2:{ apply Forall_forall. intros c _ _ w' E. congruence. }
     destruct ctx_idx as (_ & HIL & HLL).
@@ -1034,9 +1189,8 @@ Section Ctx.
                 forall z, (z < N)%nat ->
                   busy po + travel_duration inp (c_stop po) z
                   <= busy pc + travel_duration inp (c_stop pc) z).
-    refine (sim_wait_sound inp vv US OLD _ 0 (cl_max_wait_vehicle inp vv)
-              J (fun x => (x < N)%nat) ctx_old_nodup _ _ _ _
-              NSUF PC PC (firstn (S IDX) OLD) _ _ _ _ _ _ _ _ _ _ _ _ H).
+    refine (ctx_sim_wait _ _ 0 (cl_max_wait_vehicle inp vv)
+              J (fun x => (x < N)%nat) _ _ _ _ _ ctx_dom _ _ H).
     - intros c Hc _ w' Ew'. cbv beta in Hc. rewrite Ew in Ew'. injection Ew' as <-.
       apply Z.ltb_ge in Hc. lia.
     - (* an inserted stop: the new chain gets later *)
@@ -1048,31 +1202,11 @@ Section Ctx.
       split; [exact Hx|]. split; [exact Hx|]. intros z Hz. rewrite !busy_step.
       pose proof (J3 x Hx). lia.
     - (* the break: equal arrival means the new chain has waited no more *)
-      intros pc po x rest (J1 & J2 & J3) Hx _ Ea Hok.
-      destruct (nc_start_of_arrival inp vv pc po x Ea) as (Es & Ee).
-      assert (Ht : teq (next_cell inp vv pc x) (next_cell inp vv po x)).
-      { unfold teq. rewrite !nc_stop. auto. }
-      assert (Hacc : c_wait_acc pc <= c_wait_acc po).
-      { pose proof (J3 x Hx) as Hj. unfold busy in Hj. rewrite !nc_arrival, !nc_travel in Ea. lia. }
-      set (d := c_wait_acc (next_cell inp vv pc x) - c_wait_acc (next_cell inp vv po x)).
-      assert (Hd : d <= 0).
-      { unfold d. rewrite !nc_wait_eq, Ea, Es. lia. }
-      assert (Hw : weq d (next_cell inp vv pc x) (next_cell inp vv po x)).
-      { split; [exact Ht|]. unfold d. lia. }
-      pose proof (cells_from_rel inp vv (weq d) (weq_step inp vv d) rest _ _ Hw) as HF2.
-      apply (Forall2_transfer (weq d) (cell_passes inp vv) (cl_max_wait_vehicle inp vv) _ _
-               (Forall2_cons _ _ Hw HF2)); [|exact Hok].
-      intros a b (_ & Eab) Hb.
-      destruct (passes_clauses inp vv b Hb) as (_ & _ & _ & _ & _ & H6).
-      intros Hh w' Ew'. specialize (H6 Hh w' Ew'). lia.
-    - exact ctx_dom.
-    - rewrite ctx_filter. exact (ctx_old_split IDX HIDX).
-    - rewrite ctx_filter. exact (ctx_old_ok IDX HIDX).
-    - symmetry. exact ctx_cnt.
-    - lia.
-    - reflexivity.
-    - reflexivity.
+      intros pc po x rest (J1 & J2 & J3) Hx _ Ea _ _ Hok.
+      apply (wait_vehicle_break pc po x rest Ea); [|exact Hok].
+      pose proof (J3 x Hx) as Hj. unfold busy in Hj. rewrite !nc_arrival, !nc_travel in Ea. lia.
     - unfold J. split; [exact HPCdom|]. split; [exact HPCdom|]. intros z _. lia.
+    - lia.
   Qed.
 
   (* ---------------------------------------------------------------- *)
@@ -1243,13 +1377,22 @@ Section Ctx.
   (* all estimates together: every new cell passes the exact check    *)
   (* ---------------------------------------------------------------- *)
 
-  Lemma all_new_cells_pass :
+  (* generic in the answer [ev8] of the vehicle max-wait estimate *)
+  Lemma all_new_cells_pass_gen (ev8 : bool) :
     in_user inp = [] -> distances_nonneg inp -> (exists s0, new_solution inp = Some s0) ->
-    (has_max_wait_vehicle inp = false \/ (durations_metric inp /\ stop_durations_nonneg inp)) ->
-    estimate_violated inp s mv = false ->
+    (has_max_wait_vehicle inp = true -> ev8 = false ->
+     Forall (cl_max_wait_vehicle inp vv) (cells_from inp vv PC NSUF)) ->
+    (has_attributes inp && est_attributes inp s mv) ||
+    (has_capacity inp && existsb (est_capacity inp s mv) (seqn (in_nres inp))) ||
+    (has_distance_limit inp && est_distance inp s mv) ||
+    (has_latest_end inp && est_latest_end inp s mv) ||
+    (has_latest_start inp && est_latest_start inp s mv) ||
+    (has_max_stops inp && est_max_stops inp s mv) ||
+    (has_max_wait_stop inp && est_max_wait_stop inp s mv) ||
+    (has_max_wait_vehicle inp && ev8) = false ->
     Forall (cell_passes inp vv) (cells_from inp vv PC NSUF).
   Proof.
-    intros Hu Hdn Hns Hside Hev. unfold estimate_violated in Hev.
+    intros Hu Hdn Hns Hside Hev.
     apply orb_false_iff in Hev. destruct Hev as (Hev & E8).
     apply orb_false_iff in Hev. destruct Hev as (Hev & E7).
     apply orb_false_iff in Hev. destruct Hev as (Hev & _).     (* max stops: no exact check *)
@@ -1286,11 +1429,34 @@ Section Ctx.
       - apply Forall_forall. intros c _. red. intros Habs. congruence. }
     assert (F8 : Forall (cl_max_wait_vehicle inp vv) (cells_from inp vv PC NSUF)).
     { destruct (has_max_wait_vehicle inp) eqn:Eh.
-      - cbn [andb] in E8. destruct Hside as [Hs|(Hm & Hd)]; [congruence|].
-        exact (est_max_wait_vehicle_sound Hm Hd E8).
+      - cbn [andb] in E8. exact (Hside eq_refl E8).
       - apply Forall_forall. intros c _. red. intros Habs. congruence. }
     rewrite Forall_forall in F2, F3, F4, F5, F7, F8.
     apply Forall_forall. intros c Hc. apply clauses_pass; auto.
+  Qed.
+
+  (* the estimates of the code as it is now: no side condition on the durations *)
+  Lemma all_new_cells_pass :
+    in_user inp = [] -> distances_nonneg inp -> (exists s0, new_solution inp = Some s0) ->
+    estimate_violated inp s mv = false ->
+    Forall (cell_passes inp vv) (cells_from inp vv PC NSUF).
+  Proof.
+    intros Hu Hdn Hns Hev. unfold estimate_violated in Hev.
+    apply (all_new_cells_pass_gen (est_max_wait_vehicle inp s mv) Hu Hdn Hns); [|exact Hev].
+    intros _ E. exact (est_max_wait_vehicle_sound E).
+  Qed.
+
+  (* the estimates before the fix *)
+  Lemma all_new_cells_pass_prefix :
+    in_user inp = [] -> distances_nonneg inp -> (exists s0, new_solution inp = Some s0) ->
+    (has_max_wait_vehicle inp = false \/ (durations_metric inp /\ stop_durations_nonneg inp)) ->
+    estimate_violated_prefix inp s mv = false ->
+    Forall (cell_passes inp vv) (cells_from inp vv PC NSUF).
+  Proof.
+    intros Hu Hdn Hns Hside Hev. unfold estimate_violated_prefix in Hev.
+    apply (all_new_cells_pass_gen (est_max_wait_vehicle_prefix inp s mv) Hu Hdn Hns); [|exact Hev].
+    intros Hh E. destruct Hside as [Hs|(Hm & Hd)]; [congruence|].
+    exact (est_max_wait_vehicle_prefix_sound Hm Hd E).
   Qed.
 
   (* if every new cell passes, Execute succeeds *)
@@ -1313,33 +1479,23 @@ End Ctx.
 (* 4. C09                                                              *)
 (* ================================================================== *)
 
-(* FULL STATEMENT WANTED (FALSE of the model, see C09_executable_executes_refuted):
-
-   Theorem C09_executable_executes : forall inp s mv s' r,
-     wf_input inp -> matrices_nonneg inp -> reachable inp s -> move_ok inp s mv ->
-     (forall u, In u (in_user inp) -> False) ->
-     move_executable inp s mv = true ->
-     exec_checked inp s mv = (s', r) -> r = Done.
-
-   What is proved: the same under the extra hypothesis [wait_vehicle_side]:
-   the vehicle max-wait constraint is not installed, OR travel durations
-   satisfy the triangle inequality and stop durations are non-negative.  Of
-   [matrices_nonneg] only the distance part is needed. *)
-
 Definition matrices_nonneg (inp : input) : Prop :=
   Forall (Forall (fun z => 0 <= z)) (in_duration inp) /\ distances_nonneg inp.
 
 Definition wait_vehicle_side (inp : input) : Prop :=
   has_max_wait_vehicle inp = false \/ (durations_metric inp /\ stop_durations_nonneg inp).
 
-Theorem C09_executable_executes_partial_proof : forall inp s mv s' r,
+(* the property, for the estimates of the code as it is now (after the fix of
+   the vehicle max-wait estimate).  Of [matrices_nonneg] only the distance part
+   is needed; user constraints are excluded (their estimate is optimistic by
+   design). *)
+Theorem C09_executable_executes_proof : forall inp s mv s' r,
   wf_input inp -> distances_nonneg inp -> reachable inp s -> move_ok inp s mv ->
   (forall u, In u (in_user inp) -> False) ->
-  wait_vehicle_side inp ->
   move_executable inp s mv = true ->
   exec_checked inp s mv = (s', r) -> r = Done.
 Proof.
-  intros inp s mv s' r Hwf Hdn Hreach Hmv Huser Hside Hme Hex.
+  intros inp s mv s' r Hwf Hdn Hreach Hmv Huser Hme Hex.
   unfold exec_checked in Hex. rewrite Hme in Hex.
   unfold move_executable in Hme. apply andb_true_iff in Hme. destruct Hme as (Hnp & Hev).
   apply negb_true_iff in Hnp. apply negb_true_iff in Hev.
@@ -1348,12 +1504,35 @@ Proof.
   { destruct Hreach as (s0 & h & Hns & _). exists s0. exact Hns. }
   assert (Hu : in_user inp = []).
   { destruct (in_user inp) as [|a l]; [reflexivity|]. exfalso. apply (Huser a). left. reflexivity. }
-  pose proof (all_new_cells_pass inp s mv Hwf HI Hmv Hnp Hu Hdn Hns Hside Hev) as HF.
+  pose proof (all_new_cells_pass inp s mv Hwf HI Hmv Hnp Hu Hdn Hns Hev) as HF.
   destruct (exec_done inp s mv Hmv Hnp HF) as (s2 & E).
   rewrite E in Hex. injection Hex as _ <-. reflexivity.
 Qed.
 
-(* the per-constraint statements, on reachable states *)
+(* the same for the estimates BEFORE the fix: only under [wait_vehicle_side]
+   (without it: C09_prefix_executable_executes_refuted_proof) *)
+Theorem C09_prefix_executable_executes_partial_proof : forall inp s mv s' r,
+  wf_input inp -> distances_nonneg inp -> reachable inp s -> move_ok inp s mv ->
+  (forall u, In u (in_user inp) -> False) ->
+  wait_vehicle_side inp ->
+  move_executable_prefix inp s mv = true ->
+  exec_checked_prefix inp s mv = (s', r) -> r = Done.
+Proof.
+  intros inp s mv s' r Hwf Hdn Hreach Hmv Huser Hside Hme Hex.
+  unfold exec_checked_prefix in Hex. rewrite Hme in Hex.
+  unfold move_executable_prefix in Hme. apply andb_true_iff in Hme. destruct Hme as (Hnp & Hev).
+  apply negb_true_iff in Hnp. apply negb_true_iff in Hev.
+  pose proof (reachable_invT inp s Hwf Hreach) as HI.
+  assert (Hns : exists s0, new_solution inp = Some s0).
+  { destruct Hreach as (s0 & h & Hns & _). exists s0. exact Hns. }
+  assert (Hu : in_user inp = []).
+  { destruct (in_user inp) as [|a l]; [reflexivity|]. exfalso. apply (Huser a). left. reflexivity. }
+  pose proof (all_new_cells_pass_prefix inp s mv Hwf HI Hmv Hnp Hu Hdn Hns Hside Hev) as HF.
+  destruct (exec_done inp s mv Hmv Hnp HF) as (s2 & E).
+  rewrite E in Hex. injection Hex as _ <-. reflexivity.
+Qed.
+
+(* the cells that exec_move recomputes *)
 Definition new_cells (inp : input) (s : state) (mv : move) : list cell :=
   let old := get_route s (mv_vehicle mv) in
   let idx := (first_gap (mv_places mv) - 1)%nat in
@@ -1455,19 +1634,25 @@ Section PerConstraint.
     Forall (cl_max_wait_stop inp (mv_vehicle mv)) (new_cells inp s mv).
   Proof. intros; eapply est_max_wait_stop_sound; eassumption. Qed.
 
-  Theorem C09_est_max_wait_vehicle_sound_partial_proof :
-    durations_metric inp -> stop_durations_nonneg inp ->
+  Theorem C09_est_max_wait_vehicle_sound_proof :
     est_max_wait_vehicle inp s mv = false ->
     Forall (cl_max_wait_vehicle inp (mv_vehicle mv)) (new_cells inp s mv).
   Proof. intros; eapply est_max_wait_vehicle_sound; eassumption. Qed.
 
+  (* before the fix *)
+  Theorem C09_prefix_est_max_wait_vehicle_sound_partial_proof :
+    durations_metric inp -> stop_durations_nonneg inp ->
+    est_max_wait_vehicle_prefix inp s mv = false ->
+    Forall (cl_max_wait_vehicle inp (mv_vehicle mv)) (new_cells inp s mv).
+  Proof. intros; eapply est_max_wait_vehicle_prefix_sound; eassumption. Qed.
+
   (* and the exact check is nothing but the six clauses *)
   Theorem C09_new_cells_pass_proof :
-    (forall u, In u (in_user inp) -> False) -> distances_nonneg inp -> wait_vehicle_side inp ->
+    (forall u, In u (in_user inp) -> False) -> distances_nonneg inp ->
     estimate_violated inp s mv = false ->
     Forall (fun c => stop_violation inp (mv_vehicle mv) true c = None) (new_cells inp s mv).
   Proof.
-    intros Huser Hdn Hside Hev.
+    intros Huser Hdn Hev.
     assert (Hns : exists s0, new_solution inp = Some s0).
     { pose proof Hreach as (s0 & h & Hns & _). exists s0. exact Hns. }
     assert (Hu : in_user inp = []).
@@ -1521,7 +1706,7 @@ Definition w_s0 : state :=
 Definition w_mvY : move := mkMove 1 0 [(1, 1)]%nat.
 Definition w_mvX : move := mkMove 0 0 [(0, 1)]%nat.
 Definition w_s1 : state := Eval vm_compute in fst (exec_move w_inp w_s0 w_mvY).
-Definition w_s2 : state := Eval vm_compute in fst (exec_checked w_inp w_s1 w_mvX).
+Definition w_s2 : state := Eval vm_compute in fst (exec_checked_prefix w_inp w_s1 w_mvX).
 
 Lemma w_wf : wf_input w_inp.
 Proof.
@@ -1586,15 +1771,16 @@ Example w_route_after :
   map c_wait_acc (from_scratch w_inp 0 [2; 0; 1; 3]%nat) = [0; 2400; 3000; 3000].
 Proof. vm_compute. repeat split. Qed.
 
+(* BEFORE THE FIX: the estimate lets the move through, Execute rejects it *)
 Theorem C09_max_wait_vehicle_refuted_proof :
   exists inp s mv,
     wf_input inp /\ input_windows_ok inp /\ matrices_nonneg inp /\ stop_durations_nonneg inp /\
     (forall u, In u (in_user inp) -> False) /\
     reachable inp s /\ move_ok inp s mv /\
-    has_max_wait_vehicle inp = true /\ est_max_wait_vehicle inp s mv = false /\
-    move_executable inp s mv = true /\
-    snd (exec_checked inp s mv) = Rejected KMaxWaitVehicle /\
-    same_obs (fst (exec_checked inp s mv)) s.
+    has_max_wait_vehicle inp = true /\ est_max_wait_vehicle_prefix inp s mv = false /\
+    move_executable_prefix inp s mv = true /\
+    snd (exec_checked_prefix inp s mv) = Rejected KMaxWaitVehicle /\
+    same_obs (fst (exec_checked_prefix inp s mv)) s.
 Proof.
   exists w_inp, w_s1, w_mvX.
   split; [exact w_wf|]. split; [exact w_windows|].
@@ -1606,19 +1792,57 @@ Proof.
   vm_compute. repeat split; intros H; exact H.
 Qed.
 
-(* the wanted statement is false of the model *)
-Theorem C09_executable_executes_refuted_proof :
+(* BEFORE THE FIX the property was false *)
+Theorem C09_prefix_executable_executes_refuted_proof :
   exists inp s mv s' r,
     wf_input inp /\ matrices_nonneg inp /\ reachable inp s /\ move_ok inp s mv /\
     (forall u, In u (in_user inp) -> False) /\
-    move_executable inp s mv = true /\
-    exec_checked inp s mv = (s', r) /\ r = Rejected KMaxWaitVehicle.
+    move_executable_prefix inp s mv = true /\
+    exec_checked_prefix inp s mv = (s', r) /\ r = Rejected KMaxWaitVehicle.
 Proof.
   exists w_inp, w_s1, w_mvX, w_s2, (Rejected KMaxWaitVehicle).
   split; [exact w_wf|]. split; [exact (proj1 w_nonneg)|].
   split; [exact w_reachable|]. split; [exact w_mvX_ok|].
   split; [intros u Hu; exact Hu|].
   split; [vm_compute; reflexivity|]. split; [vm_compute; reflexivity|reflexivity].
+Qed.
+
+(* AFTER THE FIX, on the same witness: the wait accumulated in front of Y is
+   2400 on the new route and 0 on the old one, the break is not taken, the
+   simulation goes on to Y (accumulated 3000 > 2400) and the estimate answers
+   "violated": the move is not offered and the solution is left alone *)
+Theorem C09_fixed_estimate_rejects_witness_proof :
+  est_max_wait_vehicle_prefix w_inp w_s1 w_mvX = false /\
+  est_max_wait_vehicle w_inp w_s1 w_mvX = true /\
+  move_executable w_inp w_s1 w_mvX = false /\
+  exec_checked w_inp w_s1 w_mvX = (w_s1, NotExecutable).
+Proof. repeat split; vm_compute; reflexivity. Qed.
+
+(* the fix only makes the estimate stricter: whatever the old estimate
+   rejected the new one rejects *)
+Lemma sim_wait_guard_mono (inp : input) (us : list nat) (old : list cell)
+      (violated : Z -> Z -> nat -> bool) (g1 g2 : Z -> nat -> bool) :
+  (forall a x, g2 a x = true -> g1 a x = true) ->
+  forall stops endv prev to_place acc,
+    sim_wait inp us old endv prev stops to_place acc violated g1 = true ->
+    sim_wait inp us old endv prev stops to_place acc violated g2 = true.
+Proof.
+  intros Hg. induction stops as [|x rest IH]; intros endv prev to_place acc H; cbn [sim_wait] in *;
+    [discriminate|].
+  destruct (temporal_values inp endv prev x) as [[[tr ar] st] en].
+  match type of H with (if ?b && g1 acc x then _ else _) = _ => destruct b eqn:Eb end; cbn [andb] in *.
+  - destruct (g1 acc x) eqn:E1; [discriminate|].
+    destruct (g2 acc x) eqn:E2; [rewrite (Hg _ _ E2) in E1; discriminate|].
+    destruct (violated (acc + (st - ar)) (st - ar) x); [reflexivity|]. apply IH. exact H.
+  - destruct (violated (acc + (st - ar)) (st - ar) x); [reflexivity|]. apply IH. exact H.
+Qed.
+
+Theorem C09_fix_only_stricter_proof : forall inp s mv,
+  est_max_wait_vehicle_prefix inp s mv = true -> est_max_wait_vehicle inp s mv = true.
+Proof.
+  intros inp s mv. unfold est_max_wait_vehicle_prefix, est_max_wait_vehicle. cbv zeta.
+  destruct (iv_max_wait (get_vehicle inp (mv_vehicle mv))); [|discriminate].
+  apply sim_wait_guard_mono. reflexivity.
 Qed.
 
 (* the witness is outside the side condition of the partial theorem, as it must be *)
@@ -1639,7 +1863,7 @@ Qed.
 Example ex2_hyps :
   wf_input ex2_inp /\ distances_nonneg ex2_inp /\ reachable ex2_inp ex2_s1 /\
   move_ok ex2_inp ex2_s1 ex2_mv2 /\ (forall u, In u (in_user ex2_inp) -> False) /\
-  wait_vehicle_side ex2_inp /\ has_max_wait_vehicle ex2_inp = true /\
+  has_max_wait_vehicle ex2_inp = true /\
   move_executable ex2_inp ex2_s1 ex2_mv2 = true.
 Proof.
   split; [exact ex2_wf|].
@@ -1650,18 +1874,34 @@ Proof.
     - cbn [run step]. rewrite ex2_move1_done. cbn [fst]. right. left. reflexivity. }
   split; [exact ex2_move2_ok|].
   split; [intros u Hu; exact Hu|].
-  split.
-  { right. split; [apply durations_metric_b_ok|apply stop_durations_nonneg_b_ok];
-      vm_compute; reflexivity. }
   split; vm_compute; reflexivity.
 Qed.
 
 Example ex2_applies : snd (exec_checked ex2_inp ex2_s1 ex2_mv2) = Done.
 Proof.
-  destruct ex2_hyps as (H1 & H2 & H3 & H4 & H5 & H6 & _ & H8).
+  destruct ex2_hyps as (H1 & H2 & H3 & H4 & H5 & _ & H8).
   destruct (exec_checked ex2_inp ex2_s1 ex2_mv2) as [s' r] eqn:E.
-  exact (C09_executable_executes_partial_proof _ _ _ _ _ H1 H2 H3 H4 H5 H6 H8 E).
+  exact (C09_executable_executes_proof _ _ _ _ _ H1 H2 H3 H4 H5 H8 E).
 Qed.
+
+(* a NON-metric input with a waiting inserted stop on which the (guarded)
+   break is not taken and the move is executed: the witness with vehicle max
+   wait 3000 instead of 2400 *)
+Definition w3_inp : input :=
+  mkInput [] [w_X; w_Y]
+          [mkIVehicle None [] 0 None None None None (Some 3000) [] 0 true true]
+          [mkIUnit [0%nat] []; mkIUnit [1%nat] []] w_mat w_mat 0 w_opts.
+Definition w3_s0 : state :=
+  Eval vm_compute in match new_solution w3_inp with Some s => s | None => w_dummy end.
+Definition w3_s1 : state := Eval vm_compute in fst (exec_move w3_inp w3_s0 w_mvY).
+
+Example w3_non_metric_executes :
+  new_solution w3_inp = Some w3_s0 /\ exec_move w3_inp w3_s0 w_mvY = (w3_s1, Done) /\
+  has_max_wait_vehicle w3_inp = true /\
+  move_executable w3_inp w3_s1 w_mvX = true /\
+  snd (exec_checked w3_inp w3_s1 w_mvX) = Done /\
+  map c_wait_acc (get_route (fst (exec_checked w3_inp w3_s1 w_mvX)) 0) = [0; 2400; 3000; 3000].
+Proof. repeat split; vm_compute; reflexivity. Qed.
 
 (* an estimate that does say "violated": Engine_inv's ex (capacity 1, two
    pick-ups): the move is not offered and exec_checked leaves the state alone *)
